@@ -372,7 +372,7 @@ func WorkerMain(propID, tier string, seed int64, shard, nshards, from, only int,
 		w.Begin(idx, "")
 		p.Run(w, idx, r)
 		cnt++
-		if cnt%512 == 0 {
+		if cnt%64 == 0 {
 			w.checkpoint(idx+nshards, false)
 		}
 	}
